@@ -154,6 +154,7 @@ class Report:
         for sig, case, detail in violations:
             by_sig.setdefault(json.dumps(sig, sort_keys=True), []).append((case, detail))
         rdir = os.path.join(OUT, "replays", prop)
+        shutil.rmtree(rdir, ignore_errors=True)          # replays of earlier runs are stale
         n = 0
         for sk, lst in sorted(by_sig.items(), key=lambda kv: -len(kv[1])):
             n += 1
